@@ -590,7 +590,8 @@ class Translator:
             if s == "-inf":
                 return "NInf", EXT
             fail(n, "float()")
-        simple = {"math.sqrt": ("nsqrt", 1), "math.exp": ("nexp", 1), "abs": ("nabs", 1),
+        simple = {"math.sqrt": ("nsqrt", 1), "math.exp": ("nexp", 1), "abs": ("nabs", 1), "np.log": ("nln", 1),
+                  "np.exp": ("nexp", 1), "np.sqrt": ("nsqrt", 1), "np.minimum": ("nmin", 2), "np.maximum": ("nmax", 2),
                   "min": ("nmin", 2), "max": ("nmax", 2)}
         if name in simple and not n.keywords and len(n.args) == simple[name][1]:
             args = [self.ex(a, env) for a in n.args]
